@@ -35,6 +35,10 @@ type Result struct {
 	SimSeconds float64        `json:"sim_seconds"`
 	Steps      int            `json:"steps"`
 	Sample     any            `json:"sample,omitempty"`
+	// Evals is the number of executions this run stands for (0 = 1); ExtraHashes are
+	// further distinct non-trivial cases it covered (e.g. one per enumerated crash point).
+	Evals       int      `json:"evals,omitempty"`
+	ExtraHashes []uint64 `json:"extra_hashes,omitempty"`
 }
 
 func (r *Result) Fault(kind string) {
@@ -145,6 +149,7 @@ type Failure struct {
 type Summary struct {
 	Worker      int            `json:"worker"`
 	Runs        int            `json:"runs"`
+	Evals       int            `json:"evals"`
 	Nontrivial  int            `json:"nontrivial"`
 	Hashes      []uint64       `json:"hashes"` // schedule hashes of the non-trivial runs (deduplicated)
 	Faults      map[string]int `json:"faults"`
@@ -263,6 +268,14 @@ func Main(cfg Config, run RunFunc) {
 		n++
 		sum.LastIndex = idx
 		sum.Runs++
+		if res.Evals > 0 {
+			sum.Evals += res.Evals
+		} else {
+			sum.Evals++
+		}
+		for _, h := range res.ExtraHashes {
+			seen[h] = struct{}{}
+		}
 		sum.Steps += res.Steps
 		sum.SimSeconds += res.SimSeconds
 		for k, v := range res.Faults {
